@@ -15,9 +15,11 @@ import (
 func (o *Obligation) buildQuery(withModel bool) string {
 	x := o.ex
 	var roots []*Term
-	roots = append(roots, o.PC...)
-	roots = append(roots, o.Axioms...)
+	pcFacts := filterQuantified(o.PC, o.Goal)
+	roots = append(roots, pcFacts...)
 	roots = append(roots, o.Goal)
+	relevant := x.relevantAxioms(roots, o.Axioms)
+	roots = append(roots, relevant...)
 	if withModel {
 		roots = append(roots, x.replayTerms...)
 	}
@@ -122,8 +124,8 @@ func (o *Obligation) buildQuery(withModel bool) string {
 		t := x.strLits[s]
 		if usedConst[t.Op] {
 			lits = append(lits, t.Op)
-			if usedFun["str.len"] {
-				fmt.Fprintf(&sb, "(assert (= (str.len %s) %d))\n", t.Op, len(s))
+			if usedFun["s.len"] {
+				fmt.Fprintf(&sb, "(assert (= (s.len %s) %d))\n", t.Op, len(s))
 			}
 		}
 	}
@@ -133,10 +135,10 @@ func (o *Obligation) buildQuery(withModel bool) string {
 	pr := NewPrinter()
 	pr.Prepare(roots)
 	var asserts []string
-	for _, t := range o.PC {
+	for _, t := range pcFacts {
 		asserts = append(asserts, "(assert "+pr.Print(t)+")")
 	}
-	for _, t := range o.Axioms {
+	for _, t := range relevant {
 		asserts = append(asserts, "(assert "+pr.Print(t)+")")
 	}
 	asserts = append(asserts, "(assert (not "+pr.Print(o.Goal)+"))")
@@ -352,5 +354,157 @@ func solveOne(o *Obligation, opts SolveOpts) {
 			o.Status = "discharged"
 			o.Answer = "not-refuted(" + o.Answer + ")"
 		}
+	}
+}
+
+// relevantAxioms selects the axioms that share an anchor term (an application
+// of an uninterpreted function or an array read) with the query, transitively.
+// Axioms are instances of universally valid facts, so leaving some out is
+// sound; it keeps the queries of one branch free of the other branches' facts.
+func (x *Exec) relevantAxioms(roots []*Term, axioms []*Term) []*Term {
+	visited := map[*Term]bool{}
+	var walk func(t *Term)
+	walk = func(t *Term) {
+		if visited[t] {
+			return
+		}
+		visited[t] = true
+		for _, a := range t.Args {
+			walk(a)
+		}
+	}
+	for _, r := range roots {
+		walk(r)
+	}
+	included := make([]bool, len(axioms))
+	var out []*Term
+	for changed := true; changed; {
+		changed = false
+		for i, ax := range axioms {
+			if included[i] {
+				continue
+			}
+			anchors := x.anchorsOf(ax)
+			rel := len(anchors) == 0
+			for _, a := range anchors {
+				if visited[a] {
+					rel = true
+					break
+				}
+			}
+			if rel {
+				included[i] = true
+				out = append(out, ax)
+				walk(ax)
+				changed = true
+			}
+		}
+	}
+	return out
+}
+
+func (x *Exec) anchorsOf(ax *Term) []*Term {
+	x.anchorMu.Lock()
+	defer x.anchorMu.Unlock()
+	if a, ok := x.anchorCache[ax]; ok {
+		return a
+	}
+	var out []*Term
+	seen := map[*Term]bool{}
+	var walk func(t *Term)
+	walk = func(t *Term) {
+		if seen[t] {
+			return
+		}
+		seen[t] = true
+		if len(t.Args) > 0 && !t.Bound {
+			if _, isFun := x.funs[t.Op]; isFun || t.Op == "select" {
+				out = append(out, t)
+			}
+		}
+		if ax.QVars != nil && len(t.Args) == 0 && t.QVars == nil && strings.HasPrefix(string(t.Sort), "(Array") && !t.Bound {
+			// quantified frame axioms are anchored on the fresh heap symbols they constrain
+			if strings.Contains(t.Op, "!") {
+				out = append(out, t)
+			}
+		}
+		for _, a := range t.Args {
+			walk(a)
+		}
+	}
+	walk(ax)
+	x.anchorCache[ax] = out
+	return out
+}
+
+// filterQuantified drops quantified path facts that cannot matter for the
+// goal: a universally quantified fact about the cells of some heaps is kept
+// only when the goal mentions one of those heaps. Dropping hypotheses is
+// always sound; it keeps the ground queries of unrelated branches fast and
+// stable.
+func filterQuantified(pc []*Term, goal *Term) []*Term {
+	goalHeaps := map[string]bool{}
+	collectArraySyms(goal, goalHeaps, map[*Term]bool{})
+	var out []*Term
+	var keep func(f *Term) *Term
+	keep = func(f *Term) *Term {
+		if !hasQuantifier(f, map[*Term]bool{}) {
+			return f
+		}
+		if f.Op == "and" && f.QVars == nil {
+			var parts []*Term
+			for _, a := range f.Args {
+				if k := keep(a); k != nil {
+					parts = append(parts, k)
+				}
+			}
+			return And(parts...)
+		}
+		hs := map[string]bool{}
+		collectArraySyms(f, hs, map[*Term]bool{})
+		for h := range hs {
+			if goalHeaps[h] {
+				return f
+			}
+		}
+		if len(hs) == 0 {
+			return f
+		}
+		return nil
+	}
+	for _, f := range pc {
+		if k := keep(f); k != nil && !k.isTrue() {
+			out = append(out, k)
+		}
+	}
+	return out
+}
+
+func hasQuantifier(t *Term, seen map[*Term]bool) bool {
+	if seen[t] {
+		return false
+	}
+	seen[t] = true
+	if t.QVars != nil {
+		return true
+	}
+	for _, a := range t.Args {
+		if hasQuantifier(a, seen) {
+			return true
+		}
+	}
+	return false
+}
+
+func collectArraySyms(t *Term, into map[string]bool, seen map[*Term]bool) {
+	if seen[t] {
+		return
+	}
+	seen[t] = true
+	if len(t.Args) == 0 && t.QVars == nil && strings.HasPrefix(string(t.Sort), "(Array") {
+		into[t.Op] = true
+	}
+	for _, a := range t.Args {
+		collectArraySyms(a, into, seen)
 	}
 }
